@@ -5,6 +5,7 @@
 From Coq Require Import List String ZArith Bool.
 Import ListNotations.
 Require Import Verif.Common.LockEv Verif.Generated.SourceFacts.
+Require Verif.Model.C08.
 Open Scope string_scope.
 
 (* execution order of a backend stack is the reverse of this list: RequestBuilder -> [Concurrent] ->
@@ -14,4 +15,9 @@ Lemma stack_order_ok : stack_newStack =
   ["pf.backendFactory"; "NewBackendPluginMiddleware"; "NewLoadBalancedMiddlewareWithSubscriberAndLogger";
    "NewGraphQLMiddleware"; "NewFilterHeadersMiddleware"; "NewFilterQueryStringsMiddleware";
    "NewConcurrentMiddlewareWithLogger"; "NewRequestBuilderMiddlewareWithLogger"].
+Proof. reflexivity. Qed.
+
+(* the tie to the models: the order the C08 model (and through it the C07 / C10 stack models, whose
+   literals are proved equal to it in their Properties files) executes is the regenerated one *)
+Lemma stack_matches_model : stack_newStack = Verif.Model.C08.newStack_names.
 Proof. reflexivity. Qed.
